@@ -146,7 +146,9 @@ pub fn expand_and_observe(req: &Request) -> Obs {
     // T2 twice: the token stream as returned, and its printed form (a real compiler does not
     // honour None-delimited groups the way syn does, so output that only parses thanks to them
     // is not well-formed for a user)
+    let skip_text = req.has_expr_none_group();
     let reparsed = match syn::parse2::<syn::File>(out) {
+        Ok(f) if skip_text => Ok(f),
         Ok(f) => match syn::parse_str::<syn::File>(&obs.text) {
             Ok(_) => Ok(f),
             Err(e) => Err(syn::Error::new(
@@ -653,7 +655,7 @@ fn controller(plan: &Plan, opts: &ExecOptions, main: Worker) -> (ExecLog, bool) 
     }
     if opts.keep_text {
         for (ri, (ii, text)) in &model {
-            if log.inputs[*ii].outcome == Outcome::Ok {
+            if log.inputs[*ii].outcome == Outcome::Ok && !plan.reqs[*ri].has_expr_none_group() {
                 log.texts.push((*ri, text.clone()));
             }
         }
